@@ -439,7 +439,13 @@ def run(ctx):
         itp = [p_["name"] for p_ in chain.params if "iterator" in (p_.get("type") or "") or "__normal_iterator" in (p_.get("type") or "")]
         if len(itp) < 2 and len(chain.params) == 3:
             itp = [p_["name"] for p_ in chain.params[:2]]       # the range is (first, last, context) whatever the iterator type is called
-        fwd = len(itp) >= 2 and ("++" + itp[0] in it or itp[0] + "++" in it) and itp[1] in it and "--" not in it
+        walkers = list(itp[:1])
+        if len(itp) >= 2 and isinstance(s.get("init"), int) and s["init"] >= 0 and chain.nodes[s["init"]]["k"] == "decl":
+            # `for (auto it = first; it != last; ++it)`: a local copy of the first iterator walks the range
+            for v_ in chain.nodes[s["init"]].get("vars", []):
+                if v_.get("init") is not None and v_.get("init", -1) >= 0 and chain.text(v_["init"]) == itp[0]:
+                    walkers.append(v_["name"])
+        fwd = len(itp) >= 2 and any(("++" + w_ in it or w_ + "++" in it) for w_ in walkers) and itp[1] in it and "--" not in it
         ctx.check(fwd, "chain:forward-order", "loop-shape", chain.loc(L["stmt"]),
                   "actions run in configured order from start to end", "loop header is: " + it)
         cb = case_blocks(chain)
